@@ -247,7 +247,8 @@ func numberOfBloomFilterBits(n uint, r float64) uint {
 }
 
 func numberOfBloomFilterHashFunctions(s uint, n uint) uint {
-	return uint(math.Round(float64(s) / float64(n) * math.Log(2)))
+	// a filter needs at least one hash function, otherwise nothing is ever stored or checked
+	return max(1, uint(math.Round(float64(s)/float64(n)*math.Log(2))))
 }
 
 func (c *bloomFilter) Add(ctx context.Context, key string) error {
